@@ -156,10 +156,11 @@ theorem stepGuards_sound (src : CTy) (gs : List Guard) (iv iv' : Iv) (v : Int)
 def srcIv (src : CTy) : Iv := { lo := src.lo, hi := src.hi }
 
 /-- the case converts every in-range value of integer type `src` that it accepts exactly to the integer
-    target `tgt`, tests the destination before storing, stores an object of the target's size and (target 'c')
-    accepts printable characters only -/
+    target `tgt`, tests the destination before storing (and nothing else depends on the destination), stores an
+    object of the target's size, returns that size and (target 'c') accepts printable characters only -/
 def checkCase (src : CTy) (c : Case) (tgt : Ty) : Bool :=
-  !src.isFloat && !tgt.isFloat && c.guarded && !c.store.isFloat && c.store.size == (tgtCTy tgt).size &&
+  !src.isFloat && !tgt.isFloat && c.guarded && c.destGuards.isEmpty && c.ret == tgt.size &&
+  !c.store.isFloat && c.store.size == (tgtCTy tgt).size &&
   match stepGuards (srcIv src) c.guards with
   | some iv =>
     decide (iv.hi < iv.lo) ||
@@ -182,12 +183,12 @@ theorem denote_store (tgt : Ty) (v : Int) (ht : tgt.isFloat = false) (h1 : tgt.l
 theorem checkCase_sound (src : CTy) (c : Case) (tgt : Ty) (v : Int) (d : Bool)
     (hc : checkCase src c tgt = true) (h1 : src.lo ≤ v) (h2 : v ≤ src.hi) :
     (∃ e, runCase src c (.int v) d = .err e) ∨
-    (∃ o, runCase src c (.int v) d = .ok (o, c.ret) ∧ (d = false → o = none) ∧
+    (∃ o, runCase src c (.int v) d = .ok (o, tgt.size) ∧ (d = false → o = none) ∧
       (d = true → ∃ bits, o = some (.int c.store bits) ∧ readBack tgt (.int c.store bits) = .ok (.int bits) ∧
         denote tgt bits = v ∧ (tgt = .c → isGraph v = true))) := by
   unfold checkCase at hc
-  simp only [Bool.and_eq_true, Bool.not_eq_true', beq_iff_eq] at hc
-  obtain ⟨⟨⟨⟨⟨hsf, htf⟩, hg⟩, hstf⟩, hsz⟩, hiv⟩ := hc
+  simp only [Bool.and_eq_true, Bool.not_eq_true', beq_iff_eq, List.isEmpty_iff] at hc
+  obtain ⟨⟨⟨⟨⟨⟨⟨hsf, htf⟩, hg⟩, hdg⟩, hret⟩, hstf⟩, hsz⟩, hiv⟩ := hc
   split at hiv
   · rename_i iv hst
     have hmem : (srcIv src).mem v := ⟨h1, h2⟩
@@ -206,9 +207,9 @@ theorem checkCase_sound (src : CTy) (c : Case) (tgt : Ty) (v : Int) (d : Bool)
           · omega
       cases d with
       | false =>
-        exact ⟨none, by simp [runCase, hsup, hok, hg], by simp, by simp⟩
+        exact ⟨none, by simp [runCase, hsup, hok, hg, hret], by simp, by simp⟩
       | true =>
-        refine ⟨some (.int c.store ((v % c.store.modulus).toNat)), by simp [runCase, hsup, hok, doStore, hstf], by simp, ?_⟩
+        refine ⟨some (.int c.store ((v % c.store.modulus).toNat)), by simp [runCase, hsup, hok, hdg, evalGuards, doStore, hstf, hret], by simp, ?_⟩
         intro _
         refine ⟨(v % c.store.modulus).toNat, rfl, ?_, ?_, ?_⟩
         · have hwf : (tgtCTy tgt).isFloat = false := by cases tgt <;> simp_all [tgtCTy, CTy.isFloat, Ty.isFloat]
@@ -244,7 +245,7 @@ def checkIntTable : Bool := Ty.ints.all fun s => Ty.ints.all fun tg => checkPair
 theorem checkPair_sound (src tgt : Ty) (v : Int) (d : Bool) (hp : checkPair src tgt = true)
     (hs : src.isFloat = false) (hv : inRange src v) :
     (∃ e, conv src tgt (.int v) d = .err e) ∨
-    (∃ o n, conv src tgt (.int v) d = .ok (o, n) ∧ (d = false → o = none) ∧
+    (∃ o, conv src tgt (.int v) d = .ok (o, tgt.size) ∧ (d = false → o = none) ∧
       (d = true → ∃ bits, o = some (.int bits) ∧ denote tgt bits = v ∧ (tgt = .c → isGraph v = true))) := by
   unfold checkPair at hp
   unfold conv
@@ -270,10 +271,10 @@ theorem checkPair_sound (src tgt : Ty) (v : Int) (d : Bool) (hp : checkPair src 
         cases d with
         | false =>
           have := hdn rfl; subst this
-          exact ⟨none, c.ret, by simp [ho], by simp, by simp⟩
+          exact ⟨none, by simp [ho], by simp, by simp⟩
         | true =>
           obtain ⟨bits, hob, hrb, hden, hcc⟩ := hdt rfl
           subst hob
-          exact ⟨some (.int bits), c.ret, by simp [ho, hrb], by simp, fun _ => ⟨bits, rfl, hden, hcc⟩⟩
+          exact ⟨some (.int bits), by simp [ho, hrb], by simp, fun _ => ⟨bits, rfl, hden, hcc⟩⟩
 
 end Mpt.Conv
